@@ -20,6 +20,8 @@ What is translated (re-read from the working tree on every run):
    Function kinds come from the inheritance chains in the headers.  For the logic/set classes the bodies of
    `X::__hash__`, `X::__eq__`, `X::compare` are compared (whitespace-normalised) with the shape the model
    mirrors; a class whose body no longer has that shape makes the translator raise.
+ * whether RealDouble::__hash__ / ComplexDouble::__hash__ hash the raw bit pattern (code as it is, defect D1) or
+   normalise -0.0 to 0.0 (the proposed fix): `dblHashZeroNorm`, `cdblHashZeroNorm`; the model follows the flag.
 """
 import re
 from pathlib import Path
@@ -284,6 +286,24 @@ def fn(repo, gen_dir):
             strip_comments((se / "dict.h").read_text())):
         raise ShapeError("dict.h: set_basic changed")
 
+    # RealDouble/ComplexDouble::__hash__: the code as it is hashes the bit pattern (defect D1: 0.0 == -0.0 hash
+    # differently); the proposed fix (docs/patches/C01_D1_hash_signed_zero.diff) hashes 0.0 for both zeros.  The
+    # model follows whichever form is present; anything else is a shape error.
+    def zero_norm(fname, cls, tid, plain, fixed):
+        body = method_body(strip_comments((se / fname).read_text()), cls, "__hash__")
+        if body == "hash_tseed=%s;%sreturnseed;" % (tid, plain):
+            return False
+        if body == "hash_tseed=%s;%sreturnseed;" % (tid, fixed):
+            return True
+        raise ShapeError("%s: %s::__hash__ no longer has a modelled shape: %s" % (fname, cls, body[:200]))
+
+    dbl_norm = zero_norm("real_double.cpp", "RealDouble", "SYMENGINE_REAL_DOUBLE",
+                         "hash_combine<double>(seed,i);", "hash_combine<double>(seed,i==0.0?0.0:i);")
+    cdbl_norm = zero_norm("complex_double.cpp", "ComplexDouble", "SYMENGINE_COMPLEX_DOUBLE",
+                          "hash_combine<double>(seed,i.real());hash_combine<double>(seed,i.imag());",
+                          "hash_combine<double>(seed,i.real()==0.0?0.0:i.real());"
+                          "hash_combine<double>(seed,i.imag()==0.0?0.0:i.imag());")
+
     # ------------------------------------------------------------------ emit
     L = []
     L.append("-- GENERATED by tools/extract/c01_typecodes.py from /repo/symengine/type_codes.inc (and the class")
@@ -297,6 +317,10 @@ def fn(repo, gen_dir):
     L.append("")
     L.append("/-- SYMENGINE_INCLUDE_ALL is %sdefined around `enum TypeID` in basic.h -/" % ("" if include_all else "not "))
     L.append("def includeAll : Bool := %s" % ("true" if include_all else "false"))
+    L.append("")
+    L.append("/-- RealDouble::__hash__ / ComplexDouble::__hash__ hash 0.0 for both zeros (the D1 fix is applied) -/")
+    L.append("def dblHashZeroNorm : Bool := %s" % ("true" if dbl_norm else "false"))
+    L.append("def cdblHashZeroNorm : Bool := %s" % ("true" if cdbl_norm else "false"))
     L.append("")
     L.append("/-- number of TypeID values (TypeID_Count) -/")
     L.append("def count : Nat := %d" % len(entries))
@@ -331,6 +355,7 @@ def fn(repo, gen_dir):
     if not out.exists() or out.read_text() != txt:
         out.write_text(txt)
     return dict(translator="c01_typecodes", type_codes=len(entries), include_all=include_all,
+                dbl_hash_zero_normalised=dbl_norm, cdbl_hash_zero_normalised=cdbl_norm,
                 modelled_app_classes=len(kinds), kinds={c: kinds[c] for c in sorted(kinds)})
 
 
